@@ -133,3 +133,255 @@ def check_C20(ctx):
                   "search": "bitset suite (%d cases) impl vs map-based set: no failing input" % len(rows)}
         ctx.violation("bitset-tie", detail, has_input=False, text=json.dumps(detail)[:400])
     return E.finish(ctx, level, trusted=KERNEL_TB + ["modelled: uint64 words as Z (no overflow possible in 1<<b|w for b<64), Go slice index/append as list ops with explicit panic"])
+
+
+# --------------------------------------------------------------------------
+# message-level suites (msg / dec / hist) shared by C01..C06, C08..C11, C13, C19
+
+import re as _re
+
+
+def parse_flags(s):
+    d = {}
+    for part in s.split(","):
+        if "=" in part:
+            k, v = part.split("=", 1)
+            d[k] = v
+        elif part:
+            d[part] = "1"
+    return d
+
+
+def model_kv(cols):
+    return dict(x.split("=", 1) for x in cols if "=" in x)
+
+
+ERR_CLASSES = [("expected wire type", "wire"), ("unable to parse", "parse"), ("advance outside buffer", "advance"),
+               ("failed to parse", "tag"), ("invalid field number", "fieldnum"), ("stack mangled", "stack")]
+
+
+def impl_status(st):
+    """'ok' | 'err:<field>:<class>' | 'PANIC' from the driver's status text."""
+    if st == "ok":
+        return "ok"
+    if st.startswith("PANIC"):
+        return "PANIC"
+    m = _re.match(r"err:failed while parsing (-?\d+): (.*)", st)
+    if not m:
+        return "err:?:?"
+    cls = "custom"
+    for pat, c in ERR_CLASSES:
+        if m.group(2).startswith(pat):
+            cls = c
+            break
+    return "err:%s:%s" % (m.group(1), cls)
+
+
+def parse_rows(rows):
+    out = []
+    for r in rows:
+        s, c = r["suite"], r["cols"]
+        m = model_kv(r["model"])
+        if s == "msg" and len(c) >= 7:
+            out.append(dict(suite="msg", tref=c[0], key=c[1], val=c[2], impl=c[3], flags=parse_flags(c[4]), detail=c[5], refb=c[6], model=m))
+        elif s == "dec" and len(c) >= 9:
+            out.append(dict(suite="dec", tref=c[0], key=c[1], hex=c[2], st=c[3], ist=impl_status(c[3]), pv=c[4], ost=c[5], ov=c[6],
+                            flags=parse_flags(c[7]), tag=c[8], model=m))
+        elif s == "hist" and len(c) >= 10:
+            out.append(dict(suite="hist", tref=c[0], key=c[1], chunks=c[2], seqst=c[3], sv=c[4], onest=c[5], ov=c[6], rst=c[7], rv=c[8],
+                            flags=parse_flags(c[9]), model=m))
+        elif s == "stat":
+            out.append(dict(suite="stat", name=c[0], n=int(c[1])))
+        elif s == "schema":
+            out.append(dict(suite="schema", name=c[0], ok=(r["model"] and r["model"][0] == "ok")))
+    return out
+
+
+# ---- ties: model vs implementation in one projection
+def tie_bytes(r):      # exact Marshal bytes
+    return r["model"].get("pico") == r["impl"]
+
+
+def tie_dec_val(r):    # decoded value + ok/err
+    ms = r["model"].get("st", "?")
+    if r["ist"] == "PANIC":
+        return False
+    if (r["ist"] == "ok") != (ms == "ok"):
+        return False
+    return r["ist"] != "ok" or r["model"].get("val") == r["pv"]
+
+
+def tie_dec_ok(r):     # the boolean err == nil
+    return (r["ist"] == "ok") == (r["model"].get("st") == "ok")
+
+
+def tie_dec_class(r):  # outcome class only
+    return tie_dec_ok(r) and r["ist"] != "PANIC"
+
+
+def tie_dec_err(r):    # (field, class) of errors
+    return r["ist"] == r["model"].get("st")
+
+
+def tie_hist(r):
+    m = r["model"]
+    return impl_status(r["seqst"]) == m.get("seq") and impl_status(r["onest"]) == m.get("one") and \
+        (r["seqst"] != "ok" or m.get("seqval") == r["sv"]) and (r["onest"] != "ok" or m.get("oneval") == r["ov"])
+
+
+# ---- model-internal instances of the theorems (spec validation against the oracle)
+def spec_msg(r):
+    m = r["model"]
+    return (r["refb"] == "-" or m.get("ref") == r["refb"]) and m.get("rt") == m.get("norm") and m.get("refdec") == m.get("norm")
+
+
+def spec_dec(r):
+    # ref_decode accepts exactly the well-formed inputs and yields what the model decoder yields
+    m = r["model"]
+    wf = r["flags"].get("wf") == "1"
+    if (m.get("ref") != "reject") != wf:
+        return False
+    return m.get("st") != "ok" or m.get("ref") == m.get("val")
+
+
+def shrink_bytes(ctx, key, hexs, fails):
+    """Greedy byte-level shrink of a hex input (drop chunks while it still fails)."""
+    b = bytes.fromhex(hexs)
+    step = max(1, len(b) // 2)
+    budget = 120
+    while step >= 1 and budget > 0:
+        i = 0
+        while i < len(b) and budget > 0:
+            cand = b[:i] + b[i + step:]
+            budget -= 1
+            if fails(cand.hex()):
+                b = cand
+            else:
+                i += step
+        step //= 2
+    return b.hex()
+
+
+def run_message_property(ctx, spec):
+    """Generic decider for the properties that live on the msg/dec/hist suites."""
+    level = spec.get("level", "proof")
+    if not model_available(ctx):
+        return infra_failure(ctx, level)
+    ok, ob, problems = proof_status(ctx, spec["theorems"])
+    kf = C.known_findings()
+    prop_bad, tie_bad, spec_bad = [], [], []
+    total = 0
+    distinct = set()
+    hist = {}
+    samples = []
+    for sname, gen_args in spec["suites"](ctx):
+        rows = parse_rows(E.run_suite(ctx, sname + "_" + str(gen_args[0]), gen_args))
+        for r in rows:
+            if r["suite"] == "schema":
+                if not r["ok"]:
+                    tie_bad.append(("schema", r))
+                continue
+            if r["suite"] == "stat":
+                hist.setdefault("rewrites", {})[r["name"]] = hist.get("rewrites", {}).get(r["name"], 0) + r["n"]
+                continue
+            if spec.get("filter") and not spec["filter"](r):
+                continue
+            total += 1
+            h = hist.setdefault("type", {})
+            h[r["key"]] = h.get(r["key"], 0) + 1
+            if r["suite"] == "dec":
+                h2 = hist.setdefault("input_class", {})
+                kk = r["tag"] + ":" + ("ok" if r["ist"] == "ok" else "PANIC" if r["ist"] == "PANIC" else "err")
+                h2[kk] = h2.get(kk, 0) + 1
+            ident = r.get("val") or r.get("hex") or r.get("chunks")
+            if spec["nontrivial"](r):
+                distinct.add(r["key"] + "|" + ident)
+            pt = spec["prop"].get(r["suite"])
+            if pt and not pt(r):
+                prop_bad.append(r)
+            tt = spec["tie"].get(r["suite"])
+            if tt and not tt(r):
+                tie_bad.append((sname, r))
+            st = spec.get("spec", {}).get(r["suite"])
+            if st and not st(r):
+                spec_bad.append((sname, r))
+            if len(samples) < 3 and spec["nontrivial"](r):
+                samples.append({k: (v[:300] if isinstance(v, str) else v) for k, v in r.items() if k in ("suite", "key", "val", "hex", "chunks", "impl", "st", "flags")})
+    ctx.add_cases(total, len(distinct), traces=total, hist=hist, samples=samples)
+    ctx.cover["rule"] = spec["rule"]
+    if prop_bad:
+        # a failing input is in hand: report the smallest (by input length), shrunk
+        r = min(prop_bad, key=lambda r: len(r.get("val") or r.get("hex") or r.get("chunks")))
+        rep = {"suite": r["suite"], "type": r["key"], "failing_cases": len(prop_bad)}
+        if r["suite"] == "msg":
+            flag = spec.get("shrink_flag", "bad")
+            try:
+                out = driver_out(ctx, ["msg-shrink", r["key"], r["val"], flag])
+                line = [l for l in out.split("\n") if l.startswith("msg\t")][0].split("\t")
+                rep.update({"value": line[3], "marshal_bytes": line[4], "flags": line[5], "detail": line[6][:2000]})
+                rep["replay_cmd"] = "/verif/work/bin/zzverif msg-one '%s' '%s'" % (r["key"], line[3])
+            except Exception as e:  # noqa
+                rep.update({"value": r["val"], "marshal_bytes": r["impl"], "flags": r["flags"], "detail": r["detail"][:2000], "shrink_error": str(e)[:200]})
+                rep["replay_cmd"] = "/verif/work/bin/zzverif msg-one '%s' '%s'" % (r["key"], r["val"])
+        elif r["suite"] == "dec":
+            pt = spec["prop"]["dec"]
+
+            def fails(hx):
+                out = driver_out(ctx, ["dec-one", r["key"], hx])
+                line = [l for l in out.split("\n") if l.startswith("dec\t")][0].split("\t")
+                rr = parse_rows([{"suite": "dec", "cols": line[1:], "model": []}])[0]
+                return not pt(rr)
+            hx = r["hex"][1:]
+            try:
+                if fails(hx):
+                    hx = shrink_bytes(ctx, r["key"], hx, fails)
+            except Exception as e:  # noqa
+                rep["shrink_error"] = str(e)[:200]
+            out = driver_out(ctx, ["dec-one", r["key"], hx])
+            line = [l for l in out.split("\n") if l.startswith("dec\t")][0].split("\t")
+            rep.update({"input_hex": hx, "picobuf": line[4], "picobuf_value": line[5][:1500], "reference": line[6], "reference_value": line[7][:1500], "flags": line[8]})
+            rep["replay_cmd"] = "/verif/work/bin/zzverif dec-one '%s' %s" % (r["key"], hx)
+        else:
+            rep.update({"chunks": r["chunks"], "sequential": [r["seqst"], r["sv"][:1500]], "one_call": [r["onest"], r["ov"][:1500]],
+                        "reference": [r["rst"], r["rv"][:1500]], "flags": r["flags"]})
+            rep["replay_cmd"] = "/verif/work/bin/zzverif hist-one '%s' %s" % (r["key"], r["chunks"])
+        sig = "%s:%s" % (r["suite"], r["key"])
+        known = [k for k in kf["open"] if k["property"] == ctx.pid and k.get("sig") == sig]
+        if known and len({x["key"] for x in prop_bad}) == 1:
+            ctx.known.append(known[0]["text"])
+        else:
+            ctx.violation(r["suite"], rep, text="%s %s: %s" % (r["suite"], r["key"], json.dumps(rep)[:300]))
+    elif tie_bad or spec_bad or not ok:
+        detail = {"broken_theorems_or_obligations": problems,
+                  "correspondence_mismatches": [dict(suite=s, type=r.get("key"), input=(r.get("val") or r.get("hex") or r.get("chunks") or "")[:600],
+                                                     impl=(r.get("impl") or r.get("st") or "")[:300], model={k: v[:300] for k, v in r.get("model", {}).items()})
+                                                for s, r in tie_bad[:4]],
+                  "spec_vs_reference_mismatches": [dict(suite=s, type=r.get("key"), input=(r.get("val") or r.get("hex") or "")[:600]) for s, r in spec_bad[:4]],
+                  "search": "%d cases of suites %s run against the reference implementation: no input violating the property found" % (
+                      total, [s for s, _ in spec["suites"](ctx)])}
+        ctx.violation("tie", detail, has_input=False, text=json.dumps(detail)[:500])
+    return E.finish(ctx, level, trusted=KERNEL_TB + spec.get("trusted", []))
+
+
+def _n(ctx, quick, thorough):
+    return quick if ctx.tier == "quick" else thorough
+
+
+MSG_RULE = ("random well-typed messages of every checked-in generated type without opaque custom types (boundary-biased scalars, "
+            "presence-with-default, nil/empty/present sub-messages, nested to depth 3, payload lengths around 0/1/127/128/16383/16384); "
+            "non-trivial = at least one non-default slot; distinct = distinct (type, value) strings")
+DEC_RULE = ("encodings of random messages (picobuf's and the reference encoder's) closed under meaning-preserving rewrites "
+            "(permute, pack/unpack/mixed, non-minimal varints, split sub-message, inject unknown fields/groups) for the valid stream; "
+            "prefixes, byte/token corruptions, short token strings and random bytes for the malformed stream; non-trivial = non-empty input")
+
+
+def nontrivial_any(r):
+    if r["suite"] == "msg":
+        return _re.search(r"\(i -?[1-9]|\(b x[0-9a-f]|\(o \(|\(m \(|\(t |\(d [^0]", r["val"]) is not None
+    if r["suite"] == "dec":
+        return len(r["hex"]) > 1
+    return r["chunks"].count(",") >= 1
+
+
+def msg_flag(name):
+    return lambda r: r["impl"] != "PANIC" and r["flags"].get(name) == "ok"
